@@ -228,6 +228,18 @@ def genCfg : Cfg :=
 
 theorem gen_cfg_good : genCfg.Good := by decide
 
+/-- the four releases of spawn's error path touch one resource each: as functions on the ledger they commute, so
+the order in which the source performs them is immaterial (the check replays them in the model's order) -/
+theorem undo_releases_commute (x : Inst) :
+    freeTls (freeStack x) = freeStack (freeTls x) ∧ freeTls (freeBox x) = freeBox (freeTls x) ∧
+    freeStack (freeBox x) = freeBox (freeStack x) ∧
+    freeTsm (touchTsm (freeTls x)) = freeTls (freeTsm (touchTsm x)) ∧
+    freeTsm (touchTsm (freeStack x)) = freeStack (freeTsm (touchTsm x)) ∧
+    freeTsm (touchTsm (freeBox x)) = freeBox (freeTsm (touchTsm x)) := by
+  refine ⟨?_, ?_, ?_, ?_, ?_, ?_⟩ <;>
+    simp only [freeTls, freeStack, freeBox, freeTsm, touchTsm, Bool.or_assoc] <;>
+    (congr 1; cases x.bad <;> cases notLive x.tls <;> cases notLive x.stack <;> cases notLive x.box <;> cases notLive x.tsm <;> rfl)
+
 /-! ## reachability: every interleaving, any number of threads -/
 
 def Reachable (c : Cfg) (s : St) : Prop := ∃ evs, run c St.init evs = some s
